@@ -10,11 +10,15 @@ NxDefault == \E s \in Slot : Default(s)
 NxCopy    == \E s, t \in Slot : Copy(s, t)
 NxRewrap  == \E s, t \in Slot : Rewrap(s, t)
 NxRaw     == \E s \in Slot : Raw(s)
-NxGet     == \E s \in Slot : \E j \in Fields : \E i \in 0..(Count(F(j)) - 1) : Get(s, j, i)
+NxGet     == \E s \in Slot : \E j \in Fields : \E i \in 0..(Count(F(j)) - 1) : ~DupBits(F(j)) /\ Get(s, j, i)
 NxWith    == \E s, t \in Slot : \E j \in Fields : \E i \in 0..(Count(F(j)) - 1) :
-               \E v \in SUBSET (0..(Width(F(j)) - 1)) : With(s, t, j, i, v)
+               \E v \in SUBSET (0..(Width(F(j)) - 1)) : ~DupBits(F(j)) /\ With(s, t, j, i, v)
+(* fields whose list names a bit twice: the write produces SOME state below bit N (what the implementation is allowed to do);
+   the invariants must survive any such state *)
+NxGetDup  == \E s \in Slot : \E j \in Fields : \E i \in 0..(Count(F(j)) - 1) : GetDup(s, j, i)
+NxWithDup == \E s, t \in Slot : \E j \in Fields : \E i \in 0..(Count(F(j)) - 1) : \E r \in SUBSET Bits : WithDup(s, t, j, i, r)
 NxOOB     == \E s \in Slot : \E j \in Fields : \E i \in Count(F(j))..(Count(F(j)) + 1) : OOB(s, j, i)
-Next == NxNew \/ NxDefault \/ NxCopy \/ NxRewrap \/ NxRaw \/ NxGet \/ NxWith \/ NxOOB
+Next == NxNew \/ NxDefault \/ NxCopy \/ NxRewrap \/ NxRaw \/ NxGet \/ NxWith \/ NxGetDup \/ NxWithDup \/ NxOOB
 Spec == Init /\ [][Next]_vars
 View == <<decl.id, obj, shadow>>
 =============================================================================
